@@ -38,7 +38,23 @@ SWEEP = {
     "scan": [("scan:lin:3:7", 7)], "filter": [("filter:mod:5:2", 7)], "map": [("map:mul:-2", 7)],
     "chain": [("chain:merge,3/take,2", 6), ("chain:concat,3/skip,1/take,2", 6), ("chain:map,add,1/filter,mod,2,0/scan,lin,2,0/take,3", 6)],
 }
+# LONG deterministic walks (cbdrv long, Script.lean `longWalk`): counts in the hundreds, so that a counter that wraps or saturates (a
+# `u8`, a fixed-size table) is within reach; always run (cheap): operator -> [(instance, rounds, burst, mode)]
+LONG = {
+    "skip": [("skip:300", 700, 0, 0), ("skip:260", 40, 300, 1)], "take": [("take:300", 700, 0, 0), ("take:260", 40, 300, 1)],
+    "map": [("map:add:1", 600, 0, 0), ("map:add:1", 30, 300, 1)], "filter": [("filter:mod:2:0", 600, 0, 0), ("filter:mod:3:1", 30, 300, 1)],
+    "scan": [("scan:lin:2:0", 600, 0, 0)], "fromiter": [("fromiter:inf", 600, 0, 0), ("fromiter:inf", 6, 300, 1), ("fromiter:300", 700, 0, 0)],
+    "merge": [("merge:2", 600, 0, 0), ("merge:3", 30, 300, 1)], "concat": [("concat:2", 600, 0, 0), ("concat:3", 30, 300, 1)],
+    "combine": [("combine:2", 600, 0, 0)], "flatten": [("flatten", 600, 0, 0)], "share": [("share:2", 600, 0, 0), ("share:1", 30, 300, 1)],
+    "foreach": [("foreach", 600, 0, 0)],
+    "chain": [("chain:map,add,1/take,300", 700, 0, 0), ("chain:skip,260/filter,mod,2,1/take,260", 1200, 0, 0)],
+}
 RANDOM = {"quick": (1500, 40), "thorough": (50000, 80)}
+
+
+def long_for(prop):
+    ops = {i.split(":")[0] for (i, _, _) in INSTS.get(prop, [])}
+    return [x for op in sorted(ops) for x in LONG.get(op, [])]
 
 
 def sweep_for(insts):
